@@ -210,7 +210,29 @@ def finish(ctx, level="proof", checker_cmd="lake build + #print axioms", trusted
     return exit_code
 
 
-def main(argv):
+def anchor_coverage(cov, prop):
+    """executed / total statements and branches of the property's anchor files during this run's real-code execution"""
+    anchors = []
+    for line in open(os.path.join(VERIF, "properties.jsonl")):
+        p = json.loads(line)
+        if p["id"] == prop:
+            anchors = p["anchors"]["files"]
+    out = {}
+    data = cov.get_data()
+    for f in anchors:
+        path = os.path.join(REPO, f)
+        try:
+            an = cov._analyze(path)
+            nums = an.numbers
+            out[f] = {"statements": nums.n_statements, "missed": nums.n_missing, "branches": nums.n_branches,
+                      "partial_branches": nums.n_partial_branches, "percent": round(nums.pc_covered, 1),
+                      "missing_lines": sorted(an.missing)[:40]}
+        except Exception as e:  # noqa: BLE001
+            out[f] = {"error": repr(e)}
+    return out
+
+
+def main(argv, cov=None):
     import argparse
     ap = argparse.ArgumentParser()
     ap.add_argument("prop")
@@ -228,6 +250,12 @@ def main(argv):
     ctx = Ctx(a.prop, a.tier, seed)
     try:
         mod.run(ctx)
+        if cov is not None:
+            cov.stop()
+            try:
+                ctx.cov["anchor_branch_coverage"] = anchor_coverage(cov, a.prop)
+            except Exception as e:  # noqa: BLE001
+                ctx.notes.append("coverage measurement failed: %r" % e)
         return finish(ctx, **getattr(mod, "EVIDENCE", {}))
     except lake.subprocess.TimeoutExpired as e:
         print(f"timeout: {e}", file=sys.stderr)
